@@ -414,10 +414,25 @@ class Ref(object):
 # --------------------------------------------------------------------------
 # oracle
 
+def oracle_scope(case):
+    """name resolution against CPython's own compiler: the names it resolves as local (cell, free) variables of
+    a lambda / generator expression are the same in the code genshi compiles, and every other name load goes
+    through the lookup functions"""
+    from harness.props import c13
+    st, problems = c13.scope_problems(case['src'], 'eval')
+    if st != 'bad':
+        return None
+    return {'case': case, 'what': "names are resolved as CPython's compiler resolves them: bound names are left alone, every "
+                                  'other name load goes through the lookup functions',
+            'expected': 'no difference', 'observed': problems[:4]}
+
+
 def oracle_case(case):
     kind = case.get('kind', 'eval')
     if kind == 'lex':
         return oracle_lex(case)
+    if kind == 'scope':
+        return oracle_scope(case)
     from genshi.template.eval import Expression
     src, lookup = case['src'], case['lookup']
     try:
@@ -716,6 +731,22 @@ def shard(arg):
             continue
         if f:
             res.failures.append(f)
+    # name resolution against the compiler (same expressions, no data needed)
+    from harness.props import c13
+    seen = set()
+    for c in cases:
+        if c.get('kind', 'eval') != 'eval' or c['src'] in seen:
+            continue
+        seen.add(c['src'])
+        res.evaluations += 1
+        try:
+            st, problems = c13.scope_problems(c['src'], 'eval')
+        except RecursionError:
+            res.count('scope:recursion-limit')
+            continue
+        res.count('scope:' + st)
+        if st == 'bad':
+            res.failures.append(oracle_scope({'kind': 'scope', 'src': c['src']}))
     compare_model(cases, res)
     res.samples = [c for c in cases[:3]]
     return res
